@@ -441,6 +441,13 @@ def run(ctx):
                 else:
                     datasets.append(ds.copy())
                     outs.append(Ctor('ONewDataset', len(datasets) - 1))
+            # whatever was attached by hand during the history, detection still answers from the content of each dataset
+            fresh = attempt(get_dataset_convention, bds.copy())
+            for t, ds in enumerate(datasets):
+                r = attempt(get_dataset_convention, ds)
+                if r != fresh:
+                    bad = bad or (f'dataset {t}: get_dataset_convention answers {getattr(r[1], "__name__", r[1])} after this history, '
+                                  f'{getattr(fresh[1], "__name__", fresh[1])} for a fresh dataset with the same content')
         case = {'base': bname, 'ops': [f'{k} {t}' for k, t in s]}
         interesting = any(k == 'copy' for k, t in s) or sum(1 for k, t in s if k.startswith('bind')) >= 1
         ctx.case((bname, tuple(s)), interesting, sample=case if interesting and len(ctx.samples) < 4 else None)
